@@ -31,7 +31,8 @@ def strip_comments(src: str) -> str:
     return re.sub(r"--.*", "", src)
 
 
-def lean_obligations(pid: str, theorems: List[str], tier: str, regen: bool = True) -> dict:
+def lean_obligations(pid: str, theorems: List[str], tier: str, regen: bool = True,
+                     modules: Optional[List[str]] = None) -> dict:
     """(re)build the Lean library + driver and audit the property's theorems"""
     res: Dict[str, Any] = {"obligations": 0, "discharged": 0, "axioms": {}, "problems": [], "theorems": theorems}
     if regen:
@@ -89,7 +90,7 @@ def lean_obligations(pid: str, theorems: List[str], tier: str, regen: bool = Tru
             continue
         res["discharged"] += 1
     if tier == "thorough":
-        mods = sorted({"KodaModel.Properties." + pid})
+        mods = sorted(set(modules or ["KodaModel.Properties." + pid]))
         rc, out = sh(["lake", "env", "leanchecker"] + mods, LEAN, timeout=3600)
         res["leanchecker"] = "ok" if rc == 0 else out[-500:]
         if rc != 0:
